@@ -498,11 +498,21 @@ def BER_analizer(mode: Literal['counter', 'estimator'], **kwargs):
         if decision == 'hard':
             Pe_sym = 1 - Q((um-I1)/s1) * (1-Q((um-I0)/s0))**(M-1)
         elif decision == 'soft':
-            Pe_sym = 1-1/(2*pi)**0.5*quad(lambda x: (1-Q((I1-I0+s1*x)/s0))**(M-1)*np.exp(-x**2/2),-np.inf,np.inf)[0]
+            Pe_sym = 1-1/(2*pi)**0.5*quad(lambda x: (1-Q((I1-I0+s1*x)/s0))**(M-1)*np.exp(-x**2/2),-12,12,points=_step_points(I1-I0,s0,s1),limit=200)[0] # same integral as theory_BER
         return M/2/(M-1)*Pe_sym
 
     else:
         raise ValueError('Invalid mode. Use `counter` or `estimator`.')
+
+
+def _step_points(mu1, s0, s1):
+    """Break points for the soft-decision error integral: the integrand (1-Q((mu1+s1*x)/s0))**(M-1)*exp(-x**2/2) rises from 0 to 1
+    where (mu1+s1*x)/s0 runs through -8..8, a region of width 16*s0/s1 around x = -mu1/s1 that an adaptive rule can step over."""
+    if not s1 > 0:
+        return None
+    x0, w = -mu1/s1, 8*s0/s1
+    pts = [x for x in (x0-w, x0, x0+w) if -12 < x < 12]
+    return pts or None
 
 
 def theory_BER(mu1: Union[float, ndarray], s0: Union[float, ndarray], s1: Union[float, ndarray], M: int, decision: Literal['soft','hard']='soft'):
@@ -564,7 +574,9 @@ def theory_BER(mu1: Union[float, ndarray], s0: Union[float, ndarray], s1: Union[
         raise ValueError("`M` must be a power of 2.")
 
     if decision == 'soft':
-        fun = np.vectorize( lambda mu1,s0,s1,M: 1-1/(2*pi)**0.5*quad(lambda x: (1-Q((mu1+s1*x)/s0))**(M-1)*np.exp(-x**2/2),-np.inf,np.inf)[0] )
+        # the integrand steps from 0 to 1 around x = -mu1/s1 (width s0/s1): over an infinite range quad misses that step for some mu1 when s1 >> s0,
+        # so integrate over +-12 sigma (the weight beyond is < 1e-32) with the step region as break points
+        fun = np.vectorize( lambda mu1,s0,s1,M: 1-1/(2*pi)**0.5*quad(lambda x: (1-Q((mu1+s1*x)/s0))**(M-1)*np.exp(-x**2/2),-12,12,points=_step_points(mu1,s0,s1),limit=200)[0] )
     elif decision == 'hard':
         @np.vectorize
         def fun(mu1_,s0_,s1_,M_):
